@@ -272,6 +272,13 @@ class World:
             "stdout": sys.stdout,
             "stderr": sys.stderr,
         }
+        try:
+            import fastavro._write as _fw
+
+            self._saved["avro_urandom"] = _fw.urandom
+            _fw.urandom = self._urandom  # Avro sync markers: randomness behind a seam
+        except Exception:  # noqa: BLE001
+            pass
         builtins.open = _sim_open
         io.open = _sim_open
         bz2._builtin_open = _sim_open
@@ -313,12 +320,26 @@ class World:
         sys.stdin = s["stdin"]
         sys.stdout = s["stdout"]
         sys.stderr = s["stderr"]
+        if "avro_urandom" in s:
+            import fastavro._write as _fw
+
+            _fw.urandom = s["avro_urandom"]
         CURRENT = None
         self.keep.clear()
         self.fs.wrappers.clear()
         if self._gc_was:
             gc.enable()
         return False
+
+    def _urandom(self, n):
+        """Deterministic stand-in for os.urandom where a dependency draws random bytes (Avro sync marker)."""
+        self._rand_ctr = getattr(self, "_rand_ctr", 0) + 1
+        out = b""
+        k = 0
+        while len(out) < n:
+            out += hashlib.sha256(b"simfr-urandom/%d/%d" % (self._rand_ctr, k)).digest()
+            k += 1
+        return out[:n]
 
     # -- stdio -----------------------------------------------------------------------------
     def set_stdin(self, data, plan=None):
